@@ -508,8 +508,12 @@ def r3(ctx: Ctx) -> None:
     reads = ctx.calls(f, name="read_manifest_file") + ctx.calls(f, name="read_manifest_list_file")
     read_arg_names: Set[str] = set()
     for rc in reads:
-        read_arg_names |= {n for n in sl.origins(rc.ast.args[0] if isinstance(rc.ast, ast.Call) and rc.ast.args else None, rc.id)["names"]
-                           if n != "self" and not n.startswith("self.")}
+        ro = sl.origins(rc.ast.args[0] if isinstance(rc.ast, ast.Call) and rc.ast.args else None, rc.id)
+        read_arg_names |= {n for n in ro["names"] if n != "self" and not n.startswith("self.")}
+        # ... and the attribute chains the argument is computed from (`manifest_ref.manifest_path` handed to a helper that
+        # normalises and reads it)
+        read_arg_names |= {dotted(x) for e in ro["exprs"] for x in ast.walk(e) if isinstance(x, ast.Attribute) and dotted(x)
+                           and not (dotted(x) or "").startswith("self.")}  # type: ignore[misc]
     for s_ in skips:
         brs = [b for b in g.nodes if b.kind == "branch" and b.id in dom[s_.id]]
         inner = max(brs, key=lambda b: len(dom[b.id])) if brs else None
